@@ -106,6 +106,10 @@ impl Iterator for FlopExhaustiveEvaluatorIterator {
     type Item = Showdown;
 
     fn next(&mut self) -> Option<Showdown> {
+        if self.player_entries.iter().any(|entries| entries.is_empty()) {
+            return None;
+        }
+
         loop {
             if self.current_turn_index >= self.turn_to && self.current_river_index >= self.river_to
             {
